@@ -34,7 +34,7 @@ CHECKS = {
    text="Per role 2-3 application operations over {QoS 0/1/2 sends, QoS 1 through the non-blocking API, streamed sends of 6 bytes (exact in one chunk, in two, second chunk one byte too long, half then dropped), subscribe/unsubscribe, sends that fail locally: 65536-byte topic, over the peer's maximum packet size, packet id in use, over-long filter}; every chunk is an explorer event, so other sends, peer acknowledgements, an inbound PINGREQ / QoS 1 PUBLISH (dispatcher response) or an application close() interleave at every position (1 deviation quick, 2 thorough); the full byte stream captured on the peer side is parsed by the independent decoder: whole packets only (truncated tail only as the streamed PUBLISH of an ended connection), Ok <-> exactly one packet, local Err <-> zero bytes, streamed payload = accepted chunks with the declared size.",
    note=A_NOTE, design="4/C08"),
  "C09": dict(engine="enum", technique=B_TECH,
-   text="~1500 v5 packet values weighted to shortenable packets x every outbound limit 0..160 (quick) / 0..720 (thorough) plus boundary grid x problem-information on/off, plus values whose encoding must fail and all v3 generator values; oracle: one reference frame, truthful length, within limit, only whole Reason String / User Properties dropped, failed encode leaves zero bytes, no panic.",
+   text="~1500 v5 packet values weighted to shortenable packets (reason strings none..300 bytes, user-property lists of equal and mixed sizes) x every outbound limit 0..160 (quick) / 0..1220 (thorough) plus boundary grid x problem-information on/off, plus values whose encoding must fail and all v3 generator values; oracle: one reference frame, truthful length, within limit, only whole Reason String / User Properties dropped, failed encode leaves zero bytes, no panic.",
    note="Trusts refmqtt.rs; the encoder may be conservative by up to 20 bytes before 'dropped although it fits' is reported.", design="4/C09"),
  "C10": dict(engine="enum+simnet", technique=B_TECH + "; connection part: " + A_TECH,
    text="Codec part: streams of valid packets with payload sizes around chunk/varint boundaries, all 2^(n-1) fragmentations up to 11/14 bytes and every single/double cut and fixed chunk size beyond, x min_chunk_size {0,1,4,1024,32768}, compared with the reference parse of the unfragmented stream. Connection part: all four roles x reader pace {read_all, read() with every read released by an explorer event, never reads} x min_chunk_size {0,1,4,1024} x payload buffer {4 B, 32 KiB}: a stream of two QoS 1 publishes (12 and 7 payload bytes) + PINGREQ delivered in every sequence of up to 4 (quick) / 6 (thorough) deliveries of 1, (3,) 6, 9 or all remaining bytes, interleaved in every order with the reader's steps; oracle: each handler is announced the declared size and reads exactly its own bytes in order, one PUBACK each in order, the PINGREQ after the payloads is answered (nothing leaked into the next packet), no error.",
@@ -55,7 +55,7 @@ CHECKS = {
    text="Per role 2-3 application operations over {QoS 0/1/2 sends, streamed sends of 6 bytes (exact in one chunk, in two, second chunk one byte too long, half then dropped), subscribe/unsubscribe, sends that fail locally: 65536-byte topic, over the peer's maximum packet size, packet id in use, over-long filter}; every chunk is an explorer event, so other sends, peer acknowledgements, an inbound PINGREQ / QoS 1 PUBLISH (dispatcher response) or an application close() interleave at every position (1 deviation quick, 2 thorough); the full byte stream captured on the peer side is parsed by the independent decoder: whole packets only (truncated tail only as the streamed PUBLISH of an ended connection), Ok <-> exactly one packet, local Err <-> zero bytes, streamed payload = accepted chunks with the declared size.",
    note=A_NOTE, design="4/C08"),
  "C09": dict(engine="enum", technique=B_TECH,
-   text="~1500 v5 packet values weighted to shortenable packets x every outbound limit 0..160 (quick) / 0..720 (thorough) plus boundary grid x problem-information on/off, plus values whose encoding must fail and all v3 generator values; oracle: one reference frame, truthful length, within limit, only whole Reason String / User Properties dropped, failed encode leaves zero bytes, no panic.",
+   text="~1500 v5 packet values weighted to shortenable packets (reason strings none..300 bytes, user-property lists of equal and mixed sizes) x every outbound limit 0..160 (quick) / 0..1220 (thorough) plus boundary grid x problem-information on/off, plus values whose encoding must fail and all v3 generator values; oracle: one reference frame, truthful length, within limit, only whole Reason String / User Properties dropped, failed encode leaves zero bytes, no panic.",
    note="Trusts refmqtt.rs; the encoder may be conservative by up to 20 bytes before 'dropped although it fits' is reported.", design="4/C09"),
  "C10": dict(engine="enum+simnet", technique=B_TECH + "; connection part: " + A_TECH,
    text="Codec part: streams of valid packets with payload sizes around chunk/varint boundaries, all 2^(n-1) fragmentations up to 11/14 bytes and every single/double cut and fixed chunk size beyond, x min_chunk_size {0,1,4,1024,32768}, compared with the reference parse of the unfragmented stream.",
